@@ -317,6 +317,16 @@ Definition restore (tbl : list (Z * Z)) (arg : option Z) : res Z :=
   | Some n => match assocz n tbl with Some pos => Ok pos | None => Err data_UNDEFINED_LINE_NUMBER end
   end.
 
+(* the RESTORE statement on the interpreter state: (error raised, Interpreter.data_pos afterwards); data_pos is
+   assigned only when the lookup succeeded *)
+Definition restore_stmt (tbl : list (Z * Z)) (dp : Z) (arg : option Z) : option Z * Z :=
+  match restore tbl arg with
+  | Ok d => (None, d)
+  | Err e => (Some e, dp)
+  | Host x => (Some (-x), dp)
+  | OutOfFuel => (Some (-1), dp)
+  end.
+
 (* ------------------------------------------------------------------------------------------------ *)
 (* SPECIFICATION, level 1: the DATA entries of a byte code, statement by statement (one pass, no data pointer) *)
 
@@ -521,6 +531,12 @@ Definition line_entries (l : line) : list (Z * entry) :=
   map (fun e => (l_num l, e)) (flat_map stmt_entries (l_stmts l)).
 Definition prog_entries (ls : list line) : list (Z * entry) := flat_map line_entries ls.
 
+(* line l with an empty statement (nothing or blanks bl between two colons / at the line start / behind a last colon)
+   inserted in front of its statement number i *)
+Definition with_empty (l : line) (i : nat) (bl : list Z) : line :=
+  {| l_link := l_link l; l_lo := l_lo l; l_hi := l_hi l;
+     l_stmts := firstn i (l_stmts l) ++ SOther (map LCh bl) TNone :: skipn i (l_stmts l) |}.
+
 (* how an entry reads as a number: decimal digit strings and empty entries are numeric, entries that do not start
    like a number (and entries with quotes) are not; other forms: as the scanner defines (it_word, it_numeric) *)
 Definition all_digits (w : list Z) : bool := forallb (fun c => memz c data_DIGITS) w.
@@ -593,10 +609,9 @@ Fixpoint run_ops (prot : bool) (numfail setfail : list (Z * list Z * Z * Z)) (p 
                                  run prot p cur dp tgts in
       (zlen os :: flat_map (enc_outcome tbl) os) ++ [dp'] ++ run_ops prot numfail setfail p tbl dp' r
   | OpRestore run cur arg :: r =>
-      match restore tbl arg with
-      | Ok d => [0; d] ++ run_ops prot numfail setfail p tbl d r
-      | Err e => [1; e; erl tbl (if run then cur - 1 else -1); dp] ++ run_ops prot numfail setfail p tbl dp r
-      | _ => [3]
+      match restore_stmt tbl dp arg with
+      | (None, d) => [0; d] ++ run_ops prot numfail setfail p tbl d r
+      | (Some e, d) => [1; e; erl tbl (if run then cur - 1 else -1); d] ++ run_ops prot numfail setfail p tbl d r
       end
   | OpRun :: r => [0; 0] ++ run_ops prot numfail setfail p tbl 0 r
   end.
